@@ -8,8 +8,9 @@ def run(rep, tier, seed):
     verify_all(rep, k_modifying.specs('C12'))
     k_modifying.usage_structural(rep, 'C12')
     k_order.c12_handlers(rep, 'C12')
+    k_order.c10_order(rep, 'C12')   # the raw path: parse / locate before the first splice into the real tree
     sec = native.run('b_edit', 'main', {'props': ['C12'], 'tier': tier, 'seed': seed,
-                                        'ops': ['remove', 'donor', 'slice', 'views', 'optional'], 'norm': True})
+                                        'ops': ['remove', 'donor', 'slice', 'views', 'optional', 'badopts'], 'norm': True})
     sec['native_entry'] = ('b_edit', 'replay')
     rep.bounded(sec)
     sec = native.run('b_raw', 'main', {'props': ['C12'], 'tier': tier, 'seed': seed, 'ops': ['reparse', 'rawput']})
